@@ -155,6 +155,25 @@ CLAIMED["C05"] = dict(
         "assumption validated by the schedules. Trusted: Coq kernel, translator, harness incl. verifPoint parking, python oracle. No axioms.",
    technique="Rocq proof that GC's index update preserves a newer client write (split-step model proved equal to the sequential step); refutation witnesses; forced-schedule differential replay",
    design="6/C05")
+CLAIMED["C13"] = dict(
+   text="Theorem C13_never_alias (coq/props/C13.v): for ALL configurations, ALL assignments of key hashes (any groups of keys forced onto one hash) "
+        "and ALL histories of client operations of any length (set / delete / incr / get / meta-get / flush / hint dump), a get that hits returns "
+        "bytes that an earlier set of THAT key wrote (or a counter value if the key was an incr target) -- never a value written under another key; "
+        "proved with an invariant that also covers the unchecked second read of bucket.get (hint-buffer accuracy: every buffered hint item points "
+        "at a record of its own key; log provenance: the only record a write adds to the data log is its own). The INDEPENDENCE clause (each key "
+        "keeps its own latest value through writes of the others, restart and GC) is REFUTED for the code as it stands by three witness histories "
+        "evaluated on the model and replayed on the implementation: F14 delete of a never-written colliding key answers DELETED and creates an "
+        "entry; F3 set a, set b, delete b, restart with rebuilt tree => a misses; F15 an overwritten colliding key reads its older value after the "
+        "next restart. Correspondence: 120 collide-mode histories per quick run (groups of 2..4 keys forced onto one hash through the test-only "
+        "override, restarts with/without tree dump, GC merge on/off) with replies and directory contents compared with the model, which reproduces "
+        "the code's defects exactly -- so a NEW divergence shows up as a model mismatch even when its symptom resembles a recorded finding; a "
+        "python reference-map oracle judges the implementation; one crash (F17 nil dereference in getCollisionGC) was repaired by a fix: commit.",
+   note="PARTIAL: never-alias is proved for histories of client operations; across restart and GC it is established by correspondence + oracle only "
+        "(no violation kind 'other key's value' has been observed); independence is refuted (3 open findings, recorded by their witness scripts in "
+        "corpus/C13). Version arithmetic of colliding keys is outside the property. Trusted: Coq kernel, translator, harness incl. the hash "
+        "override, python oracle. No axioms.",
+   technique="Rocq invariant proof (hint accuracy + log provenance) of never-alias over all client histories with arbitrary collisions; refutation witnesses replayed on the code; differential correspondence",
+   design="6/C13")
 NOT_YET = {}
 props = [json.loads(l) for l in open(os.path.join(V, "properties.jsonl"))]
 checks = []
